@@ -244,6 +244,7 @@ theorem points_none :
   | assert c r => exact ⟨fun L p hp => by simpa [points] using hp, fun L p hp => by simp [innerPoints] at hp⟩
   | jump b k => exact ⟨fun L p hp => by simpa [points] using hp, fun L p hp => by simp [innerPoints] at hp⟩
   | call args => exact ⟨fun L p hp => by simpa [points] using hp, fun L p hp => by simp [innerPoints] at hp⟩
+  | callAssign lhs retTy args => exact ⟨fun L p hp => by simpa [points] using hp, fun L p hp => by simp [innerPoints] at hp⟩
   | yield => exact ⟨fun L p hp => by simpa [points] using hp, fun L p hp => by simp [innerPoints] at hp⟩
   | cocall args => exact ⟨fun L p hp => by simpa [points] using hp, fun L p hp => by simp [innerPoints] at hp⟩
   | ret e => exact ⟨fun L p hp => by simpa [points] using hp, fun L p hp => by simp [innerPoints] at hp⟩
@@ -335,6 +336,11 @@ theorem points_syn :
     simp only [points, List.mem_singleton] at hp
     subst hp; cases he; exact ⟨L, _, .here⟩
   | call args =>
+    refine ⟨?_, fun L fs p fs' hp => by simp [innerPoints] at hp⟩
+    intro L fs p fs' hp he
+    simp only [points, List.mem_singleton] at hp
+    subst hp; cases he; exact ⟨L, _, .here⟩
+  | callAssign lhs retTy args =>
     refine ⟨?_, fun L fs p fs' hp => by simp [innerPoints] at hp⟩
     intro L fs p fs' hp he
     simp only [points, List.mem_singleton] at hp
